@@ -1,6 +1,7 @@
 package c02
 
 import (
+	"regexp"
 	"testing"
 
 	"pgregory.net/rapid"
@@ -12,6 +13,8 @@ import (
 // bytes: [base index] [float format index] [number of cuts] [cut positions...] text
 
 const fuzzMaxText = 96
+
+var slowFloat = regexp.MustCompile(`[0-9.][a-zA-Z][+-]?[0-9]{6,}`)
 
 func decodeDelivery(b []byte) (c Case, ok bool) {
 	if len(b) < 4 {
@@ -28,6 +31,12 @@ func decodeDelivery(b []byte) (c Case, ok bool) {
 	text := b[k:]
 	if len(text) > fuzzMaxText {
 		text = text[:fuzzMaxText]
+	}
+	if slowFloat.Match(text) {
+		// a float with an exponent of six and more digits (a long float, or any float while the default format is
+		// long-float): comparing and showing the objects needs math/big to produce millions of digits - minutes,
+		// bounded, not what the property is about (see the correction about slow long floats in DESIGN.md)
+		return c, false
 	}
 	c.Text = string(text)
 	seen := map[int]bool{}
